@@ -101,6 +101,7 @@ def default_extra(shape):
 
 
 _uid = itertools.count()
+_uid2 = itertools.count()
 
 
 class Machine:
@@ -159,6 +160,8 @@ class Machine:
                                    first=is_first, must_finish=is_mf)(fn)
             if not is_first and not is_mf and variant == 0:
                 return state(fn)            # bare decorator form
+            if next(_uid2) % 2:
+                return state(fn, first=is_first, must_finish=is_mf)      # call form: function plus keywords
             return state(first=is_first, must_finish=is_mf)(fn)
 
         base = AutonomousStateMachine if shape["auto"] else StateMachine
